@@ -152,7 +152,12 @@ struct Array {
 
     void operator+=(Type_T &&item) {
         if (Size() == Capacity()) {
+#ifdef QENTEM_VERIF
+            // verification hook (H1): grow by exactly one item
+            resize(Capacity() + SizeT{1});
+#else
             resize((Capacity() | (Capacity() == 0)) * SizeT{2});
+#endif
         }
 
         Memory::Initialize((Storage() + Size()), Memory::Move(item));
@@ -161,7 +166,12 @@ struct Array {
 
     inline void operator+=(const Type_T &item) {
         if (Size() == Capacity()) {
+#ifdef QENTEM_VERIF
+            // verification hook (H1): grow by exactly one item
+            resize(Capacity() + SizeT{1});
+#else
             resize((Capacity() | (Capacity() == 0)) * SizeT{2});
+#endif
         }
 
         Memory::Initialize((Storage() + Size()), item);
